@@ -600,31 +600,45 @@ def main(argv):
                                                 "how": "./check C16 --replay <this file>: after the named step a latency-policy group has an alive member for the type but its connectivity slot still holds 0"},
                           "connectivity slot of a latency-policy group stays 0 after a node of that type revived (step %d, %s); %d histories show only this" % (info["step"], json.dumps(info.get("op")), len(soft)),
                           matchers=[F12])
-        seen = set()
-        for i in hard[:8]:
+        FLOOR = "C16/reload-leaves-group-without-alive-member"
+
+        def model_agrees(e):
+            """the model of the unchanged code predicts the implementation's full state (hence the same set of
+            (group, type) pairs without alive member) up to and including the first step that contradicts the property"""
+            first = min(s for (s, code, _) in e if code in HARD)
+            return not any(code == 1 and s <= first for (s, code, _) in e)
+
+        def classify(case, res, e):
+            info0 = describe(case, res, e, HARD)
+            # the recorded defect, and only it: a reload leaves a non-empty group without alive member AND the model of the
+            # unchanged code (which reproduces the recorded defect) predicts exactly this outcome
+            return FLOOR if (info0.get("groups_without_alive_member_after_reload") and model_agrees(e)) else "other"
+
+        by_class = {}
+        for i in hard:
             e = all_err[i]
             if has_code(e, (9,)):
                 out.violation("impl_panic", {"case": cases[i], "errors": e}, "implementation panicked on this history")
-                break
-            info0 = describe(cases[i], all_res[i], e, HARD)
-            FLOOR = "C16/reload-leaves-group-without-alive-member"
-            cls = FLOOR if info0.get("groups_without_alive_member_after_reload") else "other"
-            if cls in seen:
+                reported_other = True
                 continue
-            seen.add(cls)
-            pred = (lambda er: is_hard(er)) if cls == "other" else (lambda er: is_hard(er))
+            by_class.setdefault(classify(cases[i], all_res[i], e), i)     # hard is sorted by size: smallest of each class
+        for cls, i in sorted(by_class.items(), key=lambda kv: kv[0] != "other"):
+            e = all_err[i]
+            want_tie = has_code(e, (1,)) and not model_agrees(e)
+            pred = (lambda er, cs=None: is_hard(er) and (not want_tie or has_code(er, (1,)))) if cls == "other" else (lambda er: is_hard(er) and model_agrees(er))
             small = cases[i] if (i < len(corpus) and cls != "other") else shrink(sc, binary, cases[i], pred, budget=8)
             errs, _, f3, results = evaluate(sc, binary, [small], "min")
             if f3 or 0 not in errs or not is_hard(errs[0]):
                 small, errs, results = cases[i], {0: e}, [all_res[i]]
             info = describe(small, results[0], errs[0], HARD)
-            matchers = [FLOOR] if info.get("groups_without_alive_member_after_reload") else []
+            matchers = [FLOOR] if classify(small, results[0], errs[0]) == FLOOR else []
+            info["model_of_unchanged_code_predicts_this_state"] = model_agrees(errs[0])
             reported_other = reported_other or not matchers
-            out.violation("impl_vs_spec" if cls == "other" else "impl_vs_spec_reload",
+            out.violation("impl_vs_spec" if not matchers else "impl_vs_spec_reload",
                           {"case": small, "errors": [(a, b) for a, b, _ in errs[0]], "first_failing_step": info, "matchers": matchers,
                            "how": "./check C16 --replay <this file>: after the named step the implementation's alive flags / transition callbacks / group membership differ from the property"},
                           "after step %d (%s) the implementation disagrees with the property%s" % (info["step"], json.dumps(info.get("op")),
-                              ": a non-empty group is left without an alive member" if matchers else ""),
+                              ": a non-empty group is left without an alive member" if info.get("groups_without_alive_member_after_reload") else ""),
                           matchers=matchers)
         if fatal or ((not proof_ok or tie_fail) and not reported_other):
             what = {}
